@@ -472,3 +472,39 @@ func TestC02_Conservation(t *testing.T) {
 		}
 	})
 }
+
+// TestC02_Frames applies the same oracle to structured cases (evmgen.GenFrames): a chain of
+// contracts whose bodies move value in every way the EVM offers (transfers, ETX, CONVERT,
+// endowed CREATE/CREATE2, SELFDESTRUCT endings with their state-rent refund) with run-time-funded
+// operands, inside nested CALL / DELEGATECALL / CALLCODE / STATICCALL / CREATE frames that fail
+// or succeed independently of their callers. Dense in what the grammar reaches rarely: an effect
+// (e.g. a self-destruct and its refund) inside a frame that an enclosing frame later rolls back.
+func TestC02_Frames(t *testing.T) {
+	rapid.Check(t, func(rt *rapid.T) {
+		c := evmgen.GenFrames(rt, evmgen.FramesOpts{Effects: []string{"convert", "etx", "transfer", "sstore", "selfdestruct"}, FailPctTop: 25})
+		o, err := c.Run()
+		if err != nil {
+			rt.Fatalf("HARNESS: %v", err)
+		}
+		rp := checkCase(rt, "frames", c, o)
+		if o.Tracer != nil {
+			maxCode := uint64(params.GetMaxCodeSize(c.Env.BlockNumber))
+			failed := o.Res.Err == nil && o.Res.Receipt.Status != types.ReceiptStatusSuccessful
+			for _, s := range o.Tracer.Suicides {
+				if rb, _ := o.Tracer.RolledBack(s.Frame, maxCode, failed); rb {
+					rp.label("selfdestruct-rolled-back")
+					if !failed {
+						rp.label("selfdestruct-rolled-back-in-successful-tx")
+					}
+				} else {
+					rp.label("selfdestruct-kept")
+				}
+			}
+		}
+		stats.Case("frames", strings.Join(rp.sig, ",")+"|"+strings.Join(c.Kinds, ","), rp.nontrivial, rp.labels...)
+		if rp.nontrivial && stats.WantSample("frames") {
+			stats.Sample("frames", map[string]any{"regime": evmgen.RegimeName(c.Env.PrimeTerminusNumber), "mode": c.Mode, "program": strings.Join(c.Kinds, " "), "executed": rp.sig,
+				"sum_before": o.Before.Sum.String(), "sum_after": o.After.Sum.String()})
+		}
+	})
+}
